@@ -376,17 +376,20 @@ func (g *Generator) getDefaultValue(field *protogen.Field) string {
 		return "true"
 	case protoreflect.FloatKind, protoreflect.DoubleKind:
 		return "3.14"
-	case protoreflect.EnumKind,
-		protoreflect.Sint32Kind,
+	case protoreflect.Sint32Kind,
 		protoreflect.Uint32Kind,
 		protoreflect.Sint64Kind,
 		protoreflect.Uint64Kind,
 		protoreflect.Sfixed32Kind,
 		protoreflect.Fixed32Kind,
 		protoreflect.Sfixed64Kind,
-		protoreflect.Fixed64Kind,
+		protoreflect.Fixed64Kind:
+		// Used for map values: an untyped constant that fits every integer kind
+		return "42"
+	case protoreflect.BytesKind:
+		return "nil"
+	case protoreflect.EnumKind,
 		protoreflect.StringKind,
-		protoreflect.BytesKind,
 		protoreflect.MessageKind,
 		protoreflect.GroupKind:
 		return `""`
